@@ -149,6 +149,19 @@ def run_case(case):
                 v.append(viol("transform-differs:%s" % pname, "transform(X) differs from the reference", observed=sorted(tg.items(), key=repr), expected=sorted(exp.items(), key=repr)))
         except Exception as e:
             v.append(viol("transform-exception:%s:%s" % (type(e).__name__, pname), "transform raised %r" % (e,)))
+        # transform of NEW data (other shapes, deeper trees than any seen in fit, labels outside the fitted vocabulary)
+        if case.get("test") and not v:
+            titems = [(tuple(p), list(l)) for p, l in case["test"]]
+            texp = reference(titems, radius, kernel, orient, kept, mask, nullify, kargs)
+            try:
+                tm = est.transform([make_item(p, l) for p, l in titems])
+                tg = R.matrix_to_cells(tm, est.token_index_dictionary_, est.column_index_dictionary_)
+                if tm.shape != mat.shape or R.compare_cells(tg, texp, rtol=1e-6, atol=1e-7):
+                    v.append(viol("transform-new-data:%s:%s" % (pname, orient), "fit on %s, transform(%s): (cell, got, expected) %s" % (
+                        items, titems, R.compare_cells(tg, texp, rtol=1e-6, atol=1e-7)), observed=sorted(tg.items(), key=repr), expected=sorted(texp.items(), key=repr)))
+            except Exception as e:
+                v.append(viol("transform-new-data-exception:%s:%s" % (type(e).__name__, pname), "fit on %s, transform(%s) raised %r" % (items, titems, e)))
+            return res(v, nt=repr(case) if texp else None, out="new-data-cells=%d" % min(len(texp), 9))
     return res(v, nt=repr(case) if exp else None, out="cells=%d" % min(len(exp), 9))
 
 
@@ -183,6 +196,15 @@ def _cases(tier):
             for pr in (0, 2):
                 for it in deep:
                     yield {"items": [it], "radius": r, "kernel": k, "orientation": o, "pruning": pr, "kargs": kargs}
+    # fit on shallow items, transform other (deeper, wider, partly unseen-label) items: the fitted state must not cap what
+    # transform counts
+    fits = [[([-1, 0], ["a", "b"])], [([-1, 0, 1], ["a", "b", "a"])], [([-1], ["a"]), ([-1, -1], ["b", "a"])]]
+    news = [it for it in all_items(nmax, alpha) if len(it[0]) == nmax] + [it for it in all_items(3, "abc") if "c" in it[1]][:: (2 if tier == "quick" else 1)]
+    for (r, k, o) in [(3, "flat", "after"), (3, "harmonic", "symmetric"), (4, "flat", "directional"), (2, "geometric", "before")]:
+        for pr in (0, 2):
+            for f in fits:
+                for it in news:
+                    yield {"items": f, "test": [it], "radius": r, "kernel": k, "orientation": o, "pruning": pr}
     if tier != "quick":
         for it in all_items(3, "abc"):
             for (r, k, o) in cfgs[::3]:
